@@ -3,6 +3,7 @@ import XjsModel.Props.C11
 import XjsModel.Props.C14
 import XjsModel.Props.C15
 import XjsModel.Proofs.LexPrintAll
+import XjsModel.Proofs.LexPrintRound
 /-
   C01 — Transpilation preserves program behaviour.
 
@@ -21,6 +22,7 @@ import XjsModel.Proofs.LexPrintAll
         same tree without error (C03, whole programs) — so source tree = tree of the output;
     (3b) the compact TEXT of such a tree (lexically sane tokens) is read by the lexer as exactly those printed tokens, none
         of them after a line break or with a comment (C03 byte level, `Proofs/LexPrint*.lean`);
+    (3c) hence parsing the compact text returns the tree again, up to token positions (`compact_output_is_a_spelling_of_the_tree`);
     (4) an error-free tree is complete and compiles in every configuration without failing (C11).
   Known findings in the oracle: nosemi-hazard (D6), trim-in-literal (D5) (restricted productions: repaired, f7f7cd3).
 -/
@@ -63,6 +65,14 @@ theorem compact_text_is_the_printed_tokens (ccfg : CompCfg) (hc : ccfg.pretty = 
     (lexAll (compile ccfg prog.tree).code).map LP.keyOf4 = prog.toks.map LP.quietKey ++ [LP.eofKey] :=
   LP.compact_text_lexes4 ccfg hc prog hw hterm hs
 
+/-- (3)+(3b) end to end: the compact output, read again by lexer and parser (any mode), is the same tree up to token
+    positions — "the output is a spelling of the same tree" as one statement, for compact mode -/
+theorem compact_output_is_a_spelling_of_the_tree (tolerant smart : Bool) (ccfg : CompCfg) (hc : ccfg.pretty = false) (prog : SSList)
+    (hw : prog.wf = true) (hterm : prog.term = true) (hs : LP.saneB prog) (hn : ∀ t ∈ prog.toks, LP.quietTok t) :
+    ∃ r, parseSource { tolerant := tolerant, smart := smart } (compile ccfg prog.tree).code = some r ∧
+      Pos.stmtListZ r.prog = Pos.stmtListZ prog.tree ∧ r.errors = [] ∧ r.hasErr = false :=
+  LP.compact_round_trip tolerant smart ccfg hc prog hw hterm hs hn
+
 end Xjs.C01
 
 #print axioms Xjs.C01.accepted_source_is_faithfully_represented
@@ -70,3 +80,4 @@ end Xjs.C01
 #print axioms Xjs.C01.operator_core_round_trip
 #print axioms Xjs.C01.program_round_trip
 #print axioms Xjs.C01.compact_text_is_the_printed_tokens
+#print axioms Xjs.C01.compact_output_is_a_spelling_of_the_tree
